@@ -457,6 +457,8 @@ func init() {
 			rules.B2(rc)
 			rules.B3(rc)
 			rules.SP(rc, "C20", 6)
+			rules.L0(rc, func(fn string) bool { return strings.Contains(fn, "prepDataVSF") }) // the float engines' own operand preparation
+			rules.IP3(rc)
 			rules.LGuards(rc, "C20")
 			rules.K3(rc, fileFilter("defaultenginefloat32.go", "defaultenginefloat64.go"), 0, 0)
 			fams := rules.Families(rc.P)
